@@ -71,14 +71,21 @@ def _complexify(r, fvar):
 
 
 def make_fun(cls, fvar='real'):
-    """f for class cls; fvar in real / mul / add (complex-valued variants)."""
+    """f for class cls; fvar in real / realpart (real-valued even for complex x) / mul / add (complex-valued)."""
     def f(x):
+        z = x
+        if fvar == 'realpart':
+            # a real-valued function of the complex variable (only the x clause of the property applies);
+            # "z * 0.0 +" keeps the container type, so a Bicomplex argument still gives a Bicomplex result
+            x = x.real
         if cls == 'Derivative':
             r = _elementwise(x)
         elif cls == 'Jacobian':
             r = _vector_of_vector(x)
         else:
             r = _scalar_of_vector(x)
+        if fvar == 'realpart':
+            r = (z if cls in ('Derivative', 'Jacobian') else z[0]) * 0.0 + r
         return _complexify(r, fvar)
     return f
 
@@ -313,7 +320,8 @@ def entry_point(case):
         return case['cls']
     return {'mc_n': 'Derivative', 'dirdiff': 'directionaldiff', 'fdw': case.get('func'),
             'fdd': 'fd_derivative', 'fdd-stencil': 'fd_derivative', 'residue': 'Residue',
-            'path': case.get('entry')}[k]
+            'path': {'Limit-step': 'Limit', 'Limit-generator': 'CStepGenerator'}.get(case.get('entry'),
+                                                                                     case.get('entry'))}[k]
 
 
 def condition(case):
@@ -335,7 +343,7 @@ def condition(case):
     if k == 'mc_n':
         return 'multicomplex-n>2' + (':n-set-after-construction' if case.get('late') else '')
     if k == 'short':
-        return 'too-few-steps:%s-generator:%s' % (case['gen'], case['method'])
+        return 'too-few-steps'
     if k == 'dirdiff':
         return 'size-mismatch'
     if k == 'fdw':
@@ -374,6 +382,8 @@ def rank_of(case):
         v = case.get(key)
         if isinstance(v, int):
             r += w * v
+    if case.get('method') in METHODS:
+        r += METHODS.index(case['method'])
     if case.get('full') or case.get('base', 'a') != 'a':
         r += 100000
     return r
@@ -414,7 +424,7 @@ def describe(case):
             case['cls'], case['method'],
             ', n=%d' % case['n'] if case['cls'] == 'Derivative' else '',
             ', order=%r' % case['order'] if case.get('order') is not None else '',
-            {'x': 'x complex (%s), f real' % case['xvar'], 'f': 'x real, f complex-valued (%s)' % case['fvar'],
+            {'x': 'x complex (%s), f %s' % (case['xvar'], 'real-analytic' if case['fvar'] == 'real' else 'f(Re x), real-valued'), 'f': 'x real, f complex-valued (%s)' % case['fvar'],
              'both': 'x complex (%s), f complex-valued (%s)' % (case['xvar'], case['fvar'])}[case['mis']])
             + ', dim %d' % case['dim'])
     return ', '.join('%s=%r' % kv for kv in sorted(case.items()))
@@ -451,6 +461,7 @@ def enumerate_cases(ctx):
                                 xvars = ['all'] + (['last'] if dim >= 2 else [])
                                 for xv in xvars:
                                     cases.append(dict(common, kind='complex', mis='x', xvar=xv, fvar='real'))
+                                    cases.append(dict(common, kind='complex', mis='x', xvar=xv, fvar='realpart'))
                                     for fv in ('mul', 'add'):
                                         cases.append(dict(common, kind='complex', mis='both', xvar=xv, fvar=fv))
                                 for fv in ('mul', 'add'):
@@ -583,7 +594,7 @@ def run(ctx):
     acc.extra['subspace_sizes'] = repr({k: len(v) for k, v in sorted(by_kind.items())})
     rule = ('the complete misuse menu, every element executed on the real library: {Derivative, Gradient, '
             'Jacobian, Hessdiag, Hessian} x {complex, multicomplex} x {complex x (all / only the last element '
-            'with non-zero imaginary part), complex-valued f (f*(1+0.5j), f+0.25j), both} x dimension (0..)1..3 x '
+            'with non-zero imaginary part; f analytic or f(Re x)), complex-valued f (f*(1+0.5j), f+0.25j), both} x dimension (0..)1..3 x '
             'n (Derivative: 1..4 complex, 1..2 multicomplex) x order {2, 4}; wrong number of returned values for '
             'all five classes x five methods x dimension 1..3 [' + COUNT_CONTRACT + ']; multicomplex n 3..6 '
             '(at construction and through the n setter); user generators (Min, Max, duck-typed) yielding k < '
